@@ -44,6 +44,7 @@ def run(ctx, rep):
     rep.run(RI.rule_instantiated_siblings, ctx, rep, "S10")
     rep.run(RI.rule_argument_roles, ctx, rep, "S11")
     rep.run(RI.rule_simultaneous_substitution, ctx, rep, "S12")
+    rep.run(RI.rule_substitution_input_is_the_declaration, ctx, rep, "S15")
     # the declaration is the input of every later instantiation: rewriting it in place makes the second
     # instantiation start from the first one's result
     rep.run(RA.rule_mutate_only_fresh, ctx, rep, "S7", "gtwrap/template_instantiator", P1_EXEMPT, min_sites=20)
